@@ -89,7 +89,7 @@ def field_desc(rng, spec):
         d["droplets"] = ds
     if rng.random() < 0.25:
         # pixel types of real images: integer grey values, single precision, and binary (segmented) images
-        d["dtype"] = str(rng.choice(["float32", "uint8", "uint16", "int16", "int64", "bool"]))
+        d["dtype"] = str(rng.choice(["float32", "uint8", "uint16", "int16", "int64", "bool", "int8"]))
     return d
 
 
@@ -143,8 +143,12 @@ def make_field(grid, spec, d):
             span = float(np.ptp(data)) or 1.0
             top = min(int(info.max), 60000)
             data = np.round((data - float(data.min())) / span * min(200, top - 20)) + (top - 220 if top > 400 else 20)
-            if dt.kind == "i" and d["seed"] % 2:
+            if dt.kind == "i" and d["seed"] % 3 == 1:
                 data = data - float(data.max()) + max(int(info.min), -30000) + 250  # dark end of a signed type
+            elif dt.kind == "i" and d["seed"] % 3 == 2 and dt.itemsize <= 2:
+                # grey values over (almost) the whole range of a signed type, e.g. a background-subtracted image
+                lo_, hi_ = int(info.min) + 3, int(info.max) - 3
+                data = np.round((data - float(data.min())) / (float(np.ptp(data)) or 1.0) * (hi_ - lo_)) + lo_
         return ScalarField(grid, data.astype(dt), dtype=dt)
     return ScalarField(grid, data)
 
@@ -166,8 +170,22 @@ def locate_opts(rng, dim):
     o["refine_args"] = [None, {"vmin": None, "vmax": None}, {"adjust_values": True},
                         {"vmin": None, "vmax": None, "adjust_values": True}][ra]
     if o["refine"] and rng.random() < 0.05:
-        o["num_processes"] = 2  # worker processes are a documented option as well
+        o["num_processes"] = [2, 2, "auto"][int(rng.integers(3))]  # worker processes are a documented option as well
+    if o["refine"] and rng.random() < 0.3:
+        o["shared_solver_options"] = True  # one least_squares_params dict for the whole session (see _with_shared)
     return o
+
+
+_SHARED_LSQ: dict = {"max_nfev": 300}
+
+
+def _with_shared(kwargs):
+    """The solver options of a session live in one dictionary that is handed to every refining call."""
+    if kwargs.pop("shared_solver_options", False):
+        ra = dict(kwargs.get("refine_args") or {})
+        ra["least_squares_params"] = _SHARED_LSQ
+        kwargs["refine_args"] = ra
+    return kwargs
 
 
 def finite_droplets(droplets_iter):
@@ -268,6 +286,7 @@ def run(case, rec):
         kwargs = {k: v for k, v in o.items() if k != "refine_args"}
         if o.get("refine_args") is not None:
             kwargs["refine_args"] = dict(o["refine_args"])
+        kwargs = _with_shared(kwargs)
         call = common.monitored(rec, "locate_droplets", droplets.locate_droplets, field, **kwargs)
         label = f"grid={geom.grid_label(spec)}{spec['shape']} field={case['field']['type']} opts={o}"
         rec.count(f"family:{geom.grid_label(spec)}")
@@ -318,6 +337,9 @@ def run(case, rec):
         kwargs = {k: v for k, v in o.items() if k != "refine_args"}
         if o.get("refine_args") is not None:
             kwargs["refine_args"] = dict(o["refine_args"])
+        kwargs = _with_shared(kwargs)
+        if case["times"] and int(case["times"][0] * 1000) % 5 == 0:
+            kwargs["num_processes"] = "auto"
         call = common.monitored(rec, "EmulsionTimeCourse.from_storage",
                                 droplets.EmulsionTimeCourse.from_storage, storage, progress=False, **kwargs)
         label = f"grid={geom.grid_label(spec)}{spec['shape']} fields={[f['type'] for f in case['fields']]} opts={o}"
